@@ -58,6 +58,11 @@ def mul : PyFloat → PyFloat → PyFloat
 def div : PyFloat → PyFloat → PyFloat
   | some a, some b => some (a / b)
   | _, _ => none
+/-- Division by a non-literal divisor: where numpy gives `±inf` / `nan` (divisor 0) this is NaN — infinities are not
+represented; the properties only speak about non-zero divisors (positive scales, non-empty ranges). -/
+def divz : PyFloat → PyFloat → PyFloat
+  | some a, some b => if b = 0 then none else some (a / b)
+  | _, _ => none
 def neg : PyFloat → PyFloat
   | some a => some (-a)
   | none => none
